@@ -43,6 +43,9 @@ def real_history(etl, tmpd, nrows, bs, cache, fail_at, ops):
                 its.append(iter(view))
         elif op == 'v':
             view = None
+        elif op == 'c':
+            if view is not None:
+                view.clearcache()         # the public way to drop a sort view's cache
         elif op[0] == 'd':
             i = int(op[1:])
             if i < len(its):
@@ -169,6 +172,32 @@ def run(ctx):
                         ctx.spec_fail('sort|file-outlives-users', 'a temporary file exists although nothing can read it any more', case)
                     else:
                         ctx.corr_fail('sort-tempfiles', 'files disappear earlier than the model says but no reader failed', case)
+        # ---- histories with an explicit clearcache(): not in the Lean machine; checked against the property directly — every
+        # iterator delivers the sorted rows in order (completely, if run to the end), none crashes, nothing is left behind
+        cc = []
+        for k in range(0, 6):
+            cc.append(['n'] + ['x0'] * 7 + ['n'] + ['x1'] * k + ['c'] + ['x1'] * 7 + ['v'])
+            cc.append(['n'] + ['x0'] * 7 + ['n', 'n'] + ['x1'] * k + ['c'] + ['x2'] * 3 + ['x1'] * 7 + ['n'] + ['x3'] * 7 + ['v', 'x2', 'x2', 'x2', 'x2'])
+            cc.append(['n'] + ['x0'] * k + ['c'] + ['x0'] * 7 + ['n'] + ['x1'] * 7 + ['c', 'v'])
+        for (n, bs, c) in [(n, bs, c) for n in (2, 4) for bs in (1, 2, 5) for c in (True, False)]:
+            for ops in cc:
+                real, left = real_history(etl, tmpd, n, bs, c, None, ops)
+                outs = [x.split(':')[0] for x in real.split(' | ')]
+                per_it = {}
+                for op, o in zip(ops, outs):
+                    if op[0] == 'x':
+                        per_it.setdefault(op, []).append(o)
+                in_order = all([int(o[1:]) for o in seq if o.startswith('r')] == list(range(len([o for o in seq if o.startswith('r')]))) and
+                               ('STOP' not in seq or seq.index('STOP') == n + 1) for seq in per_it.values())
+                ctx.case(('clearcache', n, bs, c, tuple(ops)))
+                ctx.count('explicit-clearcache')
+                case = {'nrows': n, 'buffersize': bs, 'cache': c, 'history': ' '.join(ops), 'real': real}
+                if left != 0:
+                    ctx.spec_fail('sort|leak|clearcache', '%d temporary file(s) left after the view and all iterators were released' % left, case)
+                    for f in os.listdir(tmpd):
+                        os.unlink(os.path.join(tmpd, f))
+                elif 'CRASH' in outs or 'r-1' in outs or not in_order:
+                    ctx.spec_fail('sort|reader-crash|clearcache', 'after an explicit clearcache() an iterator that was already running fails or does not deliver the sorted rows', case)
         # ---- fromdicts(generator): the spill file
         old_tmp = tempfile.tempdir
         tempfile.tempdir = tmpd
@@ -231,6 +260,41 @@ def run(ctx):
                                       {'nrows': nrows, 'history': ' '.join(ops), 'trace(op,files,expected)': trace, 'left': left})
                         for f in os.listdir(tmpd):
                             os.unlink(os.path.join(tmpd, f))
+            # the generator behind fromdicts fails at item j: whatever was spilled is gone once view and iterators are released
+            class GenBoom(Exception):
+                pass
+            for nrows in (1, 3):
+                for j in range(0, nrows + 1):
+                    for passes in (1, 2):
+                        def failing():
+                            for i in range(nrows):
+                                if i == j:
+                                    raise GenBoom()
+                                yield {'a': i}
+                            if j == nrows:
+                                raise GenBoom()
+                        view = etl.fromdicts(failing(), header=['a'])
+                        got = []
+                        for _p in range(passes):
+                            it = iter(view)
+                            try:
+                                for row in it:
+                                    got.append(tuple(row))
+                            except GenBoom:
+                                pass
+                            except Exception as e:   # noqa
+                                got.append('ERR ' + type(e).__name__)
+                            it = None
+                        during = nfiles(tmpd)
+                        del view
+                        left = nfiles(tmpd, collect=True)
+                        ctx.case(('dictsgen-fails', nrows, j, passes))
+                        ctx.count('fromdicts-generator-fails')
+                        if left:
+                            ctx.spec_fail('fromdicts|spill-file|leak', 'the spill file of fromdicts(generator) is left behind when the generator raises',
+                                          {'nrows': nrows, 'generator_fails_at': j, 'passes': passes, 'files_while_alive': during, 'left': left})
+                            for f in os.listdir(tmpd):
+                                os.unlink(os.path.join(tmpd, f))
         finally:
             tempfile.tempdir = old_tmp
         # a fault inside the spill itself: a cell that cannot be pickled makes the chunk dump fail part-way;
